@@ -25,7 +25,7 @@ META = {
     "design_ref": "DESIGN.md §3 C15",
     "engines": ["oracles"],
 }
-REQUIRED = ("hv_finite_compared", "rank_calls", "hssp_ratio_compared")
+REQUIRED = ("hv_finite_compared", "rank_calls", "hssp_ratio_compared", "hssp_calls_on_the_whole_set", "hssp_tiny_lattice_cases")
 SHARDS = {"quick": 8, "thorough": 16}
 WATCHDOG_S = {"quick": 600, "thorough": 3 * 3600}
 INF = float("inf")
@@ -191,15 +191,20 @@ def _rank_check(ctx: Ctx, rng, P, fam: str) -> None:
                       f"constrained ranks {gotc} != documented rule {expc}", {**case, "penalty": pen})
 
 
-def _hssp_check(ctx: Ctx, rng, P, r, fam: str) -> None:
+def _hssp_check(ctx: Ctx, rng, P, r, fam: str, whole_set: bool = False) -> None:
     from optuna._hypervolume.hssp import _solve_hssp
 
     ranks = oracles.peel_ranks(P)
-    front = [i for i in range(len(P)) if ranks[i] == 0]
+    # the Pareto front (what the built-in callers pass), or - second call - the whole set with its dominated points and duplicates
+    front = [i for i in range(len(P)) if ranks[i] == 0 or whole_set]
     if len(front) < 1:
         return
+    if whole_set:
+        ctx.count("hssp_calls_on_the_whole_set")
     FP = [P[i] for i in front]
     k = rng.randint(1, len(front)) if fam != "geom2d" else rng.randint(min(3, len(front)), len(front))
+    if fam == "tiny_lattice":
+        k = rng.randint(2, len(front) - 1)
     # arbitrary, non-contiguous index labels as the callers pass them
     labels = sorted(rng.sample(range(100), len(front)))
     case = {"fn": "_solve_hssp", "front": FP, "ref": r, "subset_size": k, "labels": labels}
@@ -290,6 +295,7 @@ def run(ctx: Ctx) -> None:
         "hypervolume tolerance 1e-9 relative + 64 ulp of the largest box per point (cancellation in the implementation's own subtraction order)",
         "inputs whose true volume is 0*inf are not judged",
     ]
+    _hssp_tiny_lattice_sweep(ctx, ctx.pick(1500, 40000))
     n_cases = ctx.pick(30000, 600000)
     fams = ["lattice", "lattice_wide", "doubles", "dups", "front", "inf", "geom2d"]
     for idx in range(n_cases):
@@ -327,7 +333,23 @@ def run(ctx: Ctx) -> None:
             _hv_check(ctx, P, r, True, fam)  # assume_pareto only on genuinely non-dominated input
         _rank_check(ctx, rng, P, fam)
         _hssp_check(ctx, rng, P, r, fam)
+        if has_dom or has_dup:
+            _hssp_check(ctx, rng, P, r, fam, whole_set=True)
         _callers_check(ctx, rng, P, fam)
+
+
+def _hssp_tiny_lattice_sweep(ctx: Ctx, n_cases: int) -> None:
+    """Many small integer lattices in 3-4 dimensions (coordinates 0..1/2/3, 6-8 points, dominated points and duplicates kept):
+    exact ties between marginal contributions are the rule here, which is where a lazy greedy update can go wrong."""
+    for i in range(n_cases):
+        if ctx.out_of_time():
+            ctx.count("budget_cut")
+            return
+        rng = ctx.rng("tiny-lattice", ctx.shard[0], i)
+        d, hi, n = rng.choice([3, 3, 4]), rng.choice([1, 2, 2, 3]), rng.randint(6, 8)
+        P = [[float(rng.randint(0, hi)) for _ in range(d)] for _ in range(n)]
+        ctx.count("hssp_tiny_lattice_cases")
+        _hssp_check(ctx, rng, P, [hi + 1.0] * d, "tiny_lattice", whole_set=True)
 
 
 def replay(ctx: Ctx, w: dict) -> None:
